@@ -36,3 +36,4 @@ static inline void vf_assume(unsigned char c){ __CPROVER_assume(c); }
 static inline void vf_assert(unsigned char c){ __CPROVER_assert(c, "harness assertion"); }
 static inline void vf_lib_assert_fail(uint32_t line){ __CPROVER_assert(0, "library ASSERT/DEBUG_ASSERT"); __CPROVER_assume(0); }
 static inline void vf_cut(void){ __CPROVER_assume(0); }
+static inline uint32_t vf_abs_i32(uint32_t x, unsigned char p){ return (int32_t)x<0 ? (uint32_t)(-(int32_t)x) : x; }
